@@ -108,6 +108,8 @@ type Differ struct {
 	Trace   []string
 	Failed  bool
 
+	fullSweep bool
+
 	// what the history exercised (for the non-triviality rule)
 	Evictions, StaleOps, Cleans, CleanDeletes, FailedCreates, Faults, MDDrops, ScopeHides int
 }
@@ -205,15 +207,6 @@ func (d *Differ) keyDiff() (vanished, appeared []string) {
 	sort.Strings(vanished)
 	sort.Strings(appeared)
 	return
-}
-
-func (d *Differ) keyIdx(key string) int {
-	for i, k := range d.Keys {
-		if k == key {
-			return i
-		}
-	}
-	return -1
 }
 
 // dropObs forgets the observation handles of vanished blobs. Where stale
@@ -680,10 +673,6 @@ func (d *Differ) staleOp(op Op, hi *hinfo) {
 		if len(data) == 0 {
 			data = []byte{0xEE}
 		}
-		var before []byte
-		if b, ok := d.M.Blobs[hi.key]; ok {
-			before = b.Bytes
-		}
 		var err error
 		if op.Kind == "hwrite" {
 			_, err = hi.h.Write(data)
@@ -694,7 +683,7 @@ func (d *Differ) staleOp(op Op, hi *hinfo) {
 			d.fail("stale-handle/"+op.Kind[1:]+"-not-evicted-error", op, detail(map[string]interface{}{"class": c, "err": fmt.Sprint(err)}))
 			return
 		}
-		_ = before // the live generation's bytes are re-compared by compareAll
+		// (the live generation's bytes are re-compared by compareAll)
 	}
 }
 
@@ -774,21 +763,29 @@ func (d *Differ) compareAll(op Op, opKey string) {
 			return
 		}
 		b, live := d.M.Blobs[key]
+		// the op's key is compared in full after every step, the other keys
+		// (Stat and bytes after every step) in full on every 6th step and
+		// during the closing sweep; this only bounds the syscall volume.
+		full := key == opKey || d.fullSweep || len(d.Trace)%6 == 0
 		if key == opKey {
 			d.compareStat(op, ScopeComplete, key)
 			d.compareStat(op, ScopeIncomplete, key)
 		}
-		d.compareListMD(op, ScopeAny, key)
-		if d.Failed {
-			return
+		if full {
+			d.compareListMD(op, ScopeAny, key)
+			if d.Failed {
+				return
+			}
 		}
 		if live {
-			// values: every kind for the op's key, the set ones for the others
-			for _, k := range d.Kinds {
-				if _, set := b.MD[k.Suffix]; set || key == opKey {
-					d.compareMD(op, ScopeAny, key, k.Suffix)
-					if d.Failed {
-						return
+			if full {
+				// values: every kind for the op's key, the set ones for the others
+				for _, k := range d.Kinds {
+					if _, set := b.MD[k.Suffix]; set || key == opKey {
+						d.compareMD(op, ScopeAny, key, k.Suffix)
+						if d.Failed {
+							return
+						}
 					}
 				}
 			}
@@ -838,11 +835,34 @@ func (d *Differ) Finish(probeKeyIdx int) {
 			return
 		}
 	}
+	d.staleSweep()
+	d.fullSweep = true
 	for i := range d.Keys {
 		if d.Failed {
 			return
 		}
 		d.Step(Op{Kind: "open", Key: i, Scope: ScopeAny})
+	}
+}
+
+// staleSweep exercises every retained handle whose blob is gone with every
+// handle operation (memory store only).
+func (d *Differ) staleSweep() {
+	if d.Failed || !d.Caps.StaleHandlesFail {
+		return
+	}
+	for i, hi := range d.handles {
+		if hi.closed || !d.stale(hi) {
+			continue
+		}
+		for _, k := range []string{"hsize", "hseek", "hread", "hreadat", "hwrite", "hwriteat"} {
+			op := Op{Kind: k, H: i, Len: 4, Data: []byte{0xA1, 0xA2, 0xA3}, Whence: i % 3}
+			d.Trace = append(d.Trace, fmt.Sprintf("%d:sweep-%s(h%d key=%s gen=%d)", len(d.Trace), k, i, hi.key, hi.gen))
+			d.staleOp(op, hi)
+			if d.Failed {
+				return
+			}
+		}
 	}
 }
 
